@@ -15,6 +15,7 @@ import (
 	"github.com/feichai0017/NoKV/kv"
 	"github.com/feichai0017/NoKV/pb"
 	"github.com/feichai0017/NoKV/utils"
+	"github.com/feichai0017/NoKV/vfs"
 	proto "google.golang.org/protobuf/proto"
 )
 
@@ -282,7 +283,13 @@ func (tb *tableBuilder) keyDiff(newKey []byte) []byte {
 func (tb *tableBuilder) flush(lm *levelManager, tableName string) (t *table, err error) {
 	bd := tb.done()
 	t = &table{lm: lm, fid: utils.FID(tableName)}
-	// if builder is nil, open an existing sst file
+	// A file of this name can only be the orphan of a flush or compaction that
+	// crashed before its manifest edit (file ids are handed out again after
+	// recovery). The mmap layer keeps the size of an existing file, so building
+	// over it fails or leaves the orphan's trailer in place: remove it first.
+	if err := vfs.Ensure(lm.opt.FS).Remove(tableName); err != nil && !errors.Is(err, os.ErrNotExist) {
+		return nil, err
+	}
 	t.ss = file.OpenSStable(&file.Options{
 		FileName: tableName,
 		Dir:      lm.opt.WorkDir,
